@@ -244,6 +244,9 @@ def run(repo, chk, tier, parts=("dalitz", "boost", "helicity", "frame")):
 
         # build_data consumes the angles position by position, find_variable produces them: same traversal of the chain
         check_iteration_order_agreement(repo, chk, ["tf_pwa/data_trans/helicity_angle.py"])
+        from .c11_findvar import check_find_variable
+
+        check_find_variable(repo, chk)
     if "helicity" in parts:
         check_cross_unit_scale(repo, chk)
     chk.extra["kernels_inlined"] = sorted(tr.inlined)
